@@ -462,6 +462,31 @@ func (e *env) checkText(cc ccase, ch []tcell, ox, oy, ww, wh int, clip rect) {
 		}
 		return sb.String()
 	}
+	// a terminal without grapheme clustering shows the code points of a
+	// cluster one after the other (zero-width ones joined to the previous
+	// cell): expectations are compared in that form
+	asShown := func(ps []placed) []placed {
+		if e.method != widthtab.Wcwidth {
+			return ps
+		}
+		var ex []placed
+		for _, p := range ps {
+			x := p.x
+			for _, rn := range p.g {
+				rw, ok := widthtab.RuneWidth(rn)
+				if !ok {
+					rw = 1
+				}
+				if rw == 0 && len(ex) > 0 && ex[len(ex)-1].y == p.y {
+					ex[len(ex)-1].g += string(rn)
+					continue
+				}
+				ex = append(ex, placed{string(rn), x, p.y})
+				x += rw
+			}
+		}
+		return ex
+	}
 	var want []placed
 	switch cc.Op.Kind {
 	case "print":
@@ -470,6 +495,7 @@ func (e *env) checkText(cc ccase, ch []tcell, ox, oy, ww, wh int, clip rect) {
 			return
 		}
 		eager, _ := expectedPrint(cc.Op.Text, ww, wh, e.method, true)
+		lazy, eager = asShown(lazy), asShown(eager)
 		want = lazy
 		if show(got) == show(eager) {
 			want = eager
@@ -532,6 +558,23 @@ func (e *env) checkText(cc ccase, ch []tcell, ox, oy, ww, wh int, clip rect) {
 				unfittable = true
 			}
 		}
+		if e.method == widthtab.Wcwidth {
+			// the terminal shows a multi-rune cluster as several cells: put them
+			// together again where they spell the expected cluster
+			var re []placed
+			ci := 0
+			for j := 0; j < len(got); j++ {
+				p := got[j]
+				acc := p.g
+				for ci < len(cls) && acc != cls[ci] && strings.HasPrefix(cls[ci], acc) && j+1 < len(got) && got[j+1].y == p.y {
+					j++
+					acc += got[j].g
+				}
+				re = append(re, placed{acc, p.x, p.y})
+				ci++
+			}
+			got = re
+		}
 		i := 0
 		prevY, nextX := -1, 0
 		for _, p := range got {
@@ -561,6 +604,9 @@ func (e *env) checkText(cc ccase, ch []tcell, ox, oy, ww, wh int, clip rect) {
 			w.Violation("text:wrap:lost", "Wrap lost clusters although rows remain", cc, show(got), strings.Join(cls, "|"))
 		}
 		return
+	}
+	if cc.Op.Kind != "print" {
+		want = asShown(want)
 	}
 	if show(got) != show(want) {
 		w.Violation("text:"+cc.Op.Kind+":layout", fmt.Sprintf("%s laid %q out differently from the documented rules in a %dx%d window", cc.Op.Kind, cc.Op.Text, ww, wh), cc, show(got), show(want))
@@ -625,7 +671,9 @@ func (c check) Run(w *harness.W, b harness.Batch) {
 		}
 		w.Count("exhaustive_spaces", 1)
 	case "text":
-		alpha := []string{"a", "\u4f60", "e\u0301", "\t", "\n", " ", "\r\n"}
+		// the last one is a cluster whose width depends on the method (4 columns
+		// by wcwidth, 2 with grapheme clustering)
+		alpha := []string{"a", "\u4f60", "e\u0301", "\t", "\n", " ", "\r\n", "\U0001F44D\U0001F3FD"}
 		n := len(alpha)
 		k := 0
 		for l := 1; l <= s.Len; l++ {
@@ -681,7 +729,7 @@ func (c check) Run(w *harness.W, b harness.Batch) {
 		}
 		w.Count("exhaustive_spaces", 1)
 	case "random":
-		texts := []string{"hello world foo", "ab\u4f60c", "\u4f60\u597d\u4f60\u597d\u4f60", "a b  c\td", "x\ny\n\nz", "e\u0301e\u0301 e\u0301", "long-word-without-spaces and more", "\u4f60 a \u597d b"}
+		texts := []string{"a\U0001F44D\U0001F3FDbc d", "\U0001F469\u200d\U0001F680xy z", "hello world foo", "ab\u4f60c", "\u4f60\u597d\u4f60\u597d\u4f60", "a b  c\td", "x\ny\n\nz", "e\u0301e\u0301 e\u0301", "long-word-without-spaces and more", "\u4f60 a \u597d b"}
 		for i := 0; i < s.N; i++ {
 			depth := r.Range(1, 4)
 			var chain []WinSpec
